@@ -148,7 +148,7 @@ func (c *c06Gen) floatLit() frag {
 	return frag{tk(text), pAtom, "num(" + encFloat(v) + ")"}
 }
 
-var c06StrRunes = []rune{'a', 'b', 'Z', '0', ' ', '\'', '"', '\\', '\n', '\t', 0, 0x7f, 0xe9, 0x20ac, 0x1f600, '{', '#', '\r', 7, 8, 12, 11, 'n', 'x', 'u', 'N', 0xff, '7', '8', '9', 1, 0o12, 0o77}
+var c06StrRunes = []rune{'a', 'b', 'Z', '0', ' ', '\'', '"', '\\', '\n', '\t', 0, 0x7f, 0xe9, 0x20ac, 0x1f600, '{', '#', '\r', 7, 8, 12, 11, 'n', 'x', 'u', 'N', 0xff, '7', '8', '9', 1, 0o12, 0o77, 'd', '.', '\\', 'Z'}
 
 func (c *c06Gen) strValue(maxLen int) string {
 	n := c.g.Int(0, maxLen)
@@ -196,7 +196,14 @@ func (c *c06Gen) spellStr(value string) string {
 	qc := rune(quote[0])
 	var sb strings.Builder
 	sb.WriteString(prefix + quote)
+	forceLiteral := false
 	for i, r := range rs {
+		if forceLiteral {
+			// the character after a bare backslash is written as itself
+			forceLiteral = false
+			sb.WriteRune(r)
+			continue
+		}
 		literalOK := r >= 0x20 && r != 0x7f && r != '\\' && r != qc
 		if len(quote) == 3 && (r == '\n') {
 			literalOK = true
@@ -220,6 +227,11 @@ func (c *c06Gen) spellStr(value string) string {
 			opts = append(opts, "\\r")
 		case '\\':
 			opts = append(opts, "\\\\")
+			// a backslash before a character that starts no escape sequence stands for itself
+			if i+1 < len(rs) && strings.ContainsRune("Z #{%.dceghijklmopqswyz", rs[i+1]) {
+				opts = append(opts, "\\", "\\", "\\")
+				c.nperturb["unrecognised-escape"] = true
+			}
 		case '\'':
 			opts = append(opts, "\\'")
 		case '"':
@@ -253,7 +265,11 @@ func (c *c06Gen) spellStr(value string) string {
 			opts = append(opts, fmt.Sprintf("\\u%04x", r), fmt.Sprintf("\\u%04X", r))
 		}
 		opts = append(opts, fmt.Sprintf("\\U%08x", r))
-		sb.WriteString(opts[g.N(len(opts))])
+		choice := opts[g.N(len(opts))]
+		if choice == "\\" {
+			forceLiteral = true
+		}
+		sb.WriteString(choice)
 	}
 	if g.Chance(1, 10) {
 		// backslash-newline inside a (non-raw) literal is a line continuation and contributes nothing
